@@ -84,7 +84,9 @@ func (im *Impl) clone(name string, late, fault bool) (out string) {
 	mux := http.NewServeMux()
 	mux.HandleFunc("/v1/replicas", func(w http.ResponseWriter, r *http.Request) {
 		json.NewEncoder(w).Encode(map[string]interface{}{
-			"data": []map[string]string{{"address": eps[0].Addr(), "mode": "RW"}},
+			// the source volume also has a replica that is being rebuilt; a replica added for a rebuild is listed
+			// last.  The clone must be taken from the RW one (nothing serves a replica at that second address)
+			"data": []map[string]string{{"address": eps[0].Addr(), "mode": "RW"}, {"address": "tcp://" + ips[1] + ":9502", "mode": "WO"}},
 		})
 	})
 	stub := &http.Server{Handler: mux}
